@@ -144,4 +144,40 @@ CHECKS.update({
     ),
 })
 
+CHECKS.update({
+    'C07': dict(
+        level='fault_enumeration',
+        technique='generated workloads x enumerated kill points (SIGKILL in a forked child at harness yield points); reference-run oracle evaluated through a new handle',
+        text='For every generated workload the yield points (each database statement, file create/write/close/remove, directory create/remove) are enumerated by a reference run; a forked child '
+             'kills itself at the chosen point (quick: every label class once per workload; thorough: every point). The directory must open, hold the state before or after the interrupted operation '
+             '(compound loops: any transaction boundary of the reference run), serve complete values, accept a write within timeout=1, show only orphan files/empty directories, and be clean after check(fix=True).',
+        note='Kill granularity is the harness yield point: SIGKILL inside one SQLite call or write(2) is not explored. The reference contents come from an unkilled twin run.',
+        ref='3/C07',
+    ),
+    'C08': dict(
+        level='fault_enumeration',
+        technique='generated histories x enumerated single-fault sites (SQL error at the n-th statement, ENOSPC at the n-th file operation, unencodable values) + scheduled concurrent programs; independent rows-vs-files audit',
+        text='Each history is first run unfaulted to enumerate its fault sites, then re-run with one injected failure per site (quick: one sampled site; thorough: every site). At quiescence an audit read through a '
+             'raw sqlite3 connection and os.walk checks count, size, file-per-row with recorded size, no unreferenced value file, len(), and check().',
+        note='unlink failures are not injected (no implementation can then satisfy the property; Disk.remove documents suppression). A failing COMMIT is simulated as SQLite behaves for I/O errors (rollback, then raise).',
+        ref='3/C08',
+    ),
+    'C14': dict(
+        level='fault_enumeration',
+        technique='complete enumeration of the operation x lock-injector matrix (foreign SQLite connection driven from the SQL seam) + generated pre-states; snapshot-unchanged and unfaulted-twin oracles',
+        text='976 cells {operation of Cache/FanoutCache/DjangoCache/Deque/Index} x {lock held, taken at the first BEGIN after the value file was written, taken at the second page, released at attempt k} x '
+             '{inline,file} x {retry} x {lock-free, statistics, LRU} are all executed, plus generated pre-states: Timeout/Timeout(n)/failure value, audit snapshot unchanged, retried calls equal an unfaulted twin, reads work under lock.',
+        note='The lock is a real SQLite write lock taken by a second raw connection; timeout=0 makes contention immediate and deterministic.',
+        ref='3/C14',
+    ),
+    'C17': dict(
+        level='fault_enumeration',
+        technique='generated damage sets (thorough: every subset of <= 3 damage kinds) against an expected-warning oracle derived from the damage list; convergence and content checks',
+        text='Caches and FanoutCache shards (incl. directory names containing cache.db and .val) are damaged out of band; plain check() must report exactly the derived inconsistencies and change nothing, '
+             'check(fix=True) the same, a second check() must be empty, undamaged items identical, resized binaries readable, deleted-file items gone, counters equal to the audit.',
+        note='Warnings are classified by message prefix; truncated pickles/text files are outside the domain (only deletion).',
+        ref='3/C17',
+    ),
+})
+
 NOT_APPLICABLE = {p: PENDING for p in ['C%02d' % i for i in range(1, 21)] if p not in CHECKS}
